@@ -70,6 +70,14 @@ def c06(tier):
                 g.append(run1(l))
                 g.append(run1(short(5, rng.getrandbits(13), a)) if rng.random() < 0.3 else run1(l))
             groups.append(g)
+    for opts in OPTSETS:
+        for dfx in (17, 18):
+            a = 0x4b0400 + dfx
+            g = [reset(opts), run1(df11(5, a)), run1(short(5, enc_squawk(1, 2, 0, 0), a))]
+            for tc in range(32):
+                for st_ in range(8):
+                    g.append(run1(df17(5, a, pack([(tc, 5), (st_, 3), (rng.getrandbits(48), 48)]), df=dfx)))
+            groups.append(g)
     conform(rep, 'C06', groups)
     rep.rule = ('identity field values (%s) x DF5/DF21 x {update of existing row, first frame} x option sets {none,-U,-R}, '
                 'remaining bits random; plus every other format applied to a row holding a squawk. An event is '
@@ -132,6 +140,9 @@ def c07(tier):
     groups = []
     groups += sweep_groups(lambda v, a, r: df17(r.getrandbits(3), a, me_ident(1 + r.getrandbits(2), r.getrandbits(3), v)),
                            vals, OPTSETS[:3], rng)
+    for code in (0, 32, 63, 27, 47, 58):
+        vals.append([code] * 8)
+    vals.append([0, 32, 63, 27, 47, 58, 31, 59])
     # TC 1..4 x CA 0..7 explicitly
     tcca = [(tc, cat) for tc in range(1, 5) for cat in range(8)]
     groups += sweep_groups(lambda v, a, r: df17(5, a, me_ident(v[0], v[1], callsign_codes('WAKE%d%d' % v))), tcca, OPTSETS, rng)
@@ -141,6 +152,22 @@ def c07(tier):
         for dfn in (20, 21):
             groups += sweep_groups(lambda v, a, r: long_(dfn, r.getrandbits(13), mb20(v), a, r.getrandbits(14)),
                                    sub, OPTSETS, rng, setup_fn=setup)
+    # the same callsign under changing type code / category, and blank identifications after a real one
+    for opts in OPTSETS:
+        a = 0x3c7000 + len(opts)
+        g = [reset(opts), run1(df11(5, a))]
+        for (tc_, ca_) in [(4, 3), (4, 0), (4, 5), (2, 5), (2, 0), (4, 3), (1, 1), (4, 7)]:
+            g.append(run1(df17(5, a, me_ident(tc_, ca_, callsign_codes('SAMECS')))))
+        g.append(run1(df17(5, a, me_ident(4, 5, [32] * 8))))
+        g.append(run1(df17(5, a, me_ident(3, 2, callsign_codes('BACK1')))))
+        g.append(run1(df17(5, a, me_ident(4, 1, [0] * 8))))
+        groups.append(g)
+    # BDS 2,0 after an identification squitter has recorded a category (and the other way round)
+    sub2 = [callsign_codes(x) for x in ('KLM64X', 'A', 'ZZZZZZZZ', 'EIN5B')] + vals[:8]
+    for setup in (lambda a: [df11(5, a), df17(5, a, me_ident(4, 3, callsign_codes('KLM1023')))],
+                  lambda a: [df17(5, a, me_ident(2, 1, callsign_codes('GND1'))), df17(5, a, me_ident(2, 1, callsign_codes('GND1'))), df11(5, a)]):
+        for dfn in (20, 21):
+            groups += sweep_groups(lambda v, a, r: long_(dfn, r.getrandbits(13), mb20(v), a, r.getrandbits(14)), sub2, OPTSETS, rng, setup_fn=setup, per_group=4)
     conform(rep, 'C07', groups)
     rep.rule = ('callsign character codes: all 64 codes in each of 8 positions + %d random 48-bit strings, TC 1..4 x category '
                 '0..7, as update and first frame, option sets {none,-U,-R,-U -R}; the same MB field as BDS 2,0 via DF20/DF21 '
@@ -451,7 +478,20 @@ def c04(tier):
         if tier == 'quick':
             pairs = rng.sample(pairs, 700)
         heavy = [sorted(rng.sample(range(6, nb + 1), rng.randrange(3, 12))) for _ in range(100 if tier == 'quick' else 1500)]
-        pats = singles + pairs + heavy
+        # structured corruptions: parity field cleared / set / taken from another frame, payload cleared, with extra data errors
+        bits = F.unhex(fr)
+        pi = list(range(nb - 23, nb + 1))
+        structured = [[p for p in pi if bits[p - 1] == 1], [p for p in pi if bits[p - 1] == 0]]
+        other = F.unhex(sq[(sq.index(fr) + 1) % len(sq)])
+        if len(other) == len(bits):
+            structured.append([p for p in pi if bits[p - 1] != other[p - 1]])
+            structured.append([p for p in range(9, nb + 1) if bits[p - 1] != other[p - 1]][:-1] or [9])
+        structured.append([p for p in range(33, nb - 23) if bits[p - 1] == 1])
+        for base_ in list(structured):
+            for extra in range(3):
+                structured.append(sorted(set(base_) ^ set(rng.sample(range(6, nb - 24), rng.randrange(1, 4)))))
+        structured = [x for x in structured if x]
+        pats = singles + pairs + heavy + structured
         a = int(fr[2:8], 16)
         for ctx in (0, 1):
             for i in range(0, len(pats), 300):
@@ -1607,7 +1647,8 @@ def c15(tier):
     rng = random.Random(vlib.seed())
     binary = vlib.build_harness('release')
     keys = 'saAvVNSWEdDc'
-    orders = [''] + list(keys) + ['z', 'zz', 'Q'] + [a + b for a in 'saANd' for b in 'sAVWc'] + ['sz', 'zs', 'Az', 'xNy']
+    orders = [''] + list(keys) + ['z', 'zz', 'Q'] + [a + b for a in 'saANd' for b in 'sAVWc'] + ['sz', 'zs', 'Az', 'xNy'] + \
+             ['sAs', 'aNa', 'AsA', 'sas', 'NsAN', 'asA', 'Asa', 'sxAxs', 'aaA', 'AAa']
     if tier == 'thorough':
         orders += [a + b for a in keys for b in keys]
     cases = []
@@ -2023,27 +2064,42 @@ def c17(tier):
     binary = vlib.build_harness('release')
     tr = sweep_tool(binary, 'country', None, 'country')
     res = vlib.validate([tr], 'C17')
-    ev = vlib.read_ndjson(tr)[0]
+    evs_c = vlib.read_ndjson(tr)
+    ev = evs_c[0]
     known = vlib.load_known()
     for r in res:
         rep.traces += 1
         for v in r['viol']:
             # v['i'] is the first address of the offending run
-            run = [x for x in ev['runs'] if x['lo'] == v['i']]
+            run = [x for e_ in evs_c for x in e_['runs'] if x['lo'] == v['i']]
             v = dict(v, event={'e': 'country-run', 'run': run[0] if run else None}, tag='%06X' % v['i'])
             k = vlib.match_known(v, known)
             if k:
                 rep.known_hits[k['what']] = rep.known_hits.get(k['what'], 0) + 1
             else:
                 rep.viol.append(v)
-    rep.evaluations = 1 << 24
-    rep.nontrivial = set((r['lo'], r['hi'], r['reg']) for r in ev['runs'])
+    # the reader path: first contact through every kind of frame for one address in each 1024-address block (quick: every 4th)
+    rng = random.Random(vlib.seed())
+    groups, g = [], None
+    step = 4096 if tier == 'quick' else 1024
+    for k, base in enumerate(range(0, 1 << 24, step)):
+        a = base + rng.randrange(1, step)
+        fr = nine_frames(a, rng)[k % 9]
+        if k % 60 == 0:
+            g = [reset([['-U'], [], ['-R']][(k // 60) % 3])]
+            groups.append(g)
+        g.append(run1(fr))
+    conform(rep, 'C17', groups, maxlen=3000)
+    rep.evaluations += 2 * (1 << 24)
+    rep.nontrivial |= set((r['lo'], r['hi'], r['reg']) for r in ev['runs'])
     rep.samples = ev['runs'][:3] + [r for r in ev['runs'] if r['reg'] == 'IE'][:1]
     rep.exhaustive = True
     rep.rule = ('a row is created through the public constructor for every one of the 2^24 addresses; the run-length encoding of row.reg '
-                '(%d runs, lossless) is judged by TLC against the Annex 10 block table of spec/Country.tla: runs partition the address space, '
+                '(%d runs, lossless; once through Plane::from_message and once through Plane::from_downlink, the constructor the reader uses, with a '
+                'decoded DF18 frame) is judged by TLC against the Annex 10 block table of spec/Country.tla: runs partition the address space, '
                 'a run starting inside a block stays inside it and shows its code, a run starting outside every block touches no block and '
-                'shows "??". distinct_nontrivial = number of runs' % len(ev['runs']))
+                'shows "??"; plus first-contact frames of all nine formats through the real reader for one address per 1024-address block '
+                '(quick: per 4096), the created row judged event by event. distinct_nontrivial = runs + created rows' % len(ev['runs']))
     rep.assumptions.append('the allocation table is written from memory of Annex 10 (no copy offline); blocks marked uncertain constrain nothing')
     return rep
 
